@@ -60,7 +60,7 @@ func VerifC14_SigningBytesBindEveryField() {
 	b2 := p2.MarshalForSigning(nn2)
 	sym.Cover("marshalled")
 	same := nn1 == nn2 && p1.Instance == p2.Instance && p1.Round == p2.Round && p1.Phase == p2.Phase &&
-		p1.SupplementalData.Eq(&p2.SupplementalData) && n1 == n2
+		verifSuppEq(&p1.SupplementalData, &p2.SupplementalData) && n1 == n2
 	if same {
 		for i := 0; i < n1; i++ {
 			if !verifTipSetEq(c1.TipSets[i], c2.TipSets[i]) {
